@@ -74,6 +74,44 @@ pub fn raw(kind: Kind) -> BoxedStrategy<i128> {
         1 => (0..=100_000_000_000u64).prop_map(move |d| fix(kind, lo + d as i128)),
         1 => (0..=100_000_000_000u64).prop_map(move |d| fix(kind, hi - d as i128)),
         2 => (-200_000_000_000i64..=200_000_000_000i64).prop_map(move |d| fix(kind, d as i128)),
+        // log-uniform magnitude: every order of magnitude of the count is equally likely
+        2 => (0u32..=63, any::<u64>(), any::<bool>()).prop_map(move |(bits, x, neg)| {
+            let m = if bits == 0 { 0 } else { (x >> (64 - bits)) as i128 };
+            fix(kind, if neg { -m } else { m })
+        }),
+        // field-structured: built from (days, h, m, s, us) where every field is zero, at its
+        // maximum or arbitrary - "round" values that uniform microsecond sampling never produces
+        3 => (proptest::collection::vec((0u8..4, any::<u32>()), 5), any::<bool>()).prop_map(move |(f, neg)| {
+            let field = |k: usize, max: u32, small: u32| -> i128 {
+                let (sel, x) = f[k];
+                (match sel {
+                    0 => 0,
+                    1 => max,
+                    2 => x % (small + 1),
+                    _ => x % (max + 1),
+                }) as i128
+            };
+            let days = field(0, 3_652_000, 3);
+            let t = field(1, 23, 1) * US_PER_HOUR + field(2, 59, 1) * US_PER_MIN + field(3, 59, 2) * US_PER_SEC + field(4, 999_999, 1);
+            let v = match kind {
+                Kind::YM => field(0, 2_136_000_000, 30),
+                Kind::Date => days,
+                Kind::Time => t,
+                Kind::DT => days * US_PER_DAY + t,
+                Kind::Ts | Kind::Ora => days * US_PER_DAY + t,
+            };
+            fix(kind, if neg { -v } else { v })
+        }),
+        // small leading field: day / year counts 0..=1200 with arbitrary lower fields
+        2 => (0i128..=1200, any::<u64>(), any::<bool>()).prop_map(move |(f, x, neg)| {
+            let v = match kind {
+                Kind::YM => f * 12 + (x % 12) as i128,
+                Kind::DT | Kind::Ts | Kind::Ora => f * US_PER_DAY + (x % US_PER_DAY as u64) as i128,
+                Kind::Date => f,
+                Kind::Time => (x % US_PER_DAY as u64) as i128,
+            };
+            fix(kind, if neg { -v } else { v })
+        }),
     ]
     .boxed()
 }
